@@ -344,6 +344,35 @@ def gen_vmdk(thorough=False):
             text=vmdk_descriptor(lines=[line]))
         yield 'vmdk only extent %r' % line, vmdk(
             text=vmdk_descriptor(extents=[line]))
+    # long descriptors: the interesting line lies beyond the first sector
+    # (and beyond the first 4 KiB) of the descriptor
+    for pad_lines, dn in ((12, 4), (80, 12)):
+        filler = ['# padding comment line number %04d ..............' % i
+                  for i in range(pad_lines)]
+        for line, what in (('RW 100 FLAT "/etc/passwd" 0', 'path extent'),
+                           ('some unknown line', 'unknown line'),
+                           ('RW 100 SPARSE "second.vmdk"', 'second extent')):
+            head = vmdk_descriptor(lines=None)
+            text = '\n'.join(head.split('\n')[:5] + filler) + '\n' + \
+                '\n'.join(head.split('\n')[5:]) + line + '\n'
+            yield 'vmdk %d-sector descriptor ending in a %s' % (dn, what), \
+                vmdk(text=text, desc_num=dn,
+                     length=512 + dn * 512 + 2048)
+    # a descriptor that fills its sectors exactly (no NUL padding)
+    base = vmdk_descriptor()
+    exact = base + '#' * (1024 - len(base) - 1) + '\n'
+    yield 'vmdk descriptor filling its 2 sectors exactly', vmdk(
+        text=exact, desc_num=2)
+    yield 'vmdk descriptor one byte short of its 2 sectors', vmdk(
+        text=exact[:-2] + '\n', desc_num=2)
+    for line in ('RW 2048 FLAT "disk#1/../../../etc/passwd" 0',
+                 'NOACCESS 2048 FLAT "#/dev/sda" 0',
+                 'RW 100 SPARSE "disk#1.vmdk"', 'RW 100 SPARSE "x" # y',
+                 '#RW 100 FLAT "/etc/passwd" 0'):
+        yield 'vmdk only extent %r' % line, vmdk(
+            text=vmdk_descriptor(extents=[line]))
+        yield 'vmdk extra line %r' % line, vmdk(
+            text=vmdk_descriptor(lines=[line]))
     yield 'vmdk no extent', vmdk(text=vmdk_descriptor(extents=[]))
     yield 'vmdk empty descriptor', vmdk(text='')
     yield 'vmdk non-ascii descriptor', vmdk(
